@@ -448,6 +448,9 @@ func oracle(run *vk.Run, rng *rand.Rand) {
 			add(fmt.Sprintf("bigtail%d+%d", n, len(tail)), append(append([]byte{}, b...), tail...))
 		}
 	}
+	// binding self-test: a falsified record must be singled out by TLC
+	recs = append(recs, orec{Name: "selftest-falsified", Input: vk.Ints(bases[3]), Ok: false, Bytes: []int{}})
+	selfIdx := len(recs)
 	dir, err := os.MkdirTemp("", "c08o-")
 	if err != nil {
 		vk.Infra("%v", err)
@@ -462,14 +465,19 @@ func oracle(run *vk.Run, rng *rand.Rand) {
 	if res.Violated != "" || !res.OK {
 		vk.Infra("ArmorOracle failed: %s\n%s", res.Violated, res.Output)
 	}
-	run.Traces(len(recs))
+	run.Traces(len(recs) - 1)
 	norms := map[int][]byte{}
+	selfSeen := false
 	for _, l := range res.PrintsWithPrefix("BAD ") {
 		var v struct {
 			I    int    `json:"i"`
 			Why  string `json:"why"`
 			Name string `json:"name"`
 			Norm []int  `json:"norm"`
+		}
+		if err := json.Unmarshal([]byte(l), &v); err == nil && v.I == selfIdx {
+			selfSeen = true
+			continue
 		}
 		if err := json.Unmarshal([]byte(l), &v); err != nil || v.I < 1 || v.I > len(inputs) {
 			vk.Infra("bad BAD line %q", l)
@@ -487,7 +495,11 @@ func oracle(run *vk.Run, rng *rand.Rand) {
 		// recorded result, and only type/stickiness/delivery predicates remain to be evaluated here.
 		CheckRead(run, in, norms[i], nil, "oracle:"+strings.SplitN(name, "#", 2)[0], kinds)
 	}
-	run.Add("oracle_records", len(recs))
+	if !selfSeen {
+		vk.Infra("binding self-test failed: ArmorOracle did not flag a falsified record")
+	}
+	run.Set("binding_selftest", "falsified record flagged by ArmorOracle")
+	run.Add("oracle_records", len(recs)-1)
 	run.Add("oracle_disagreements", len(norms))
 	run.Sample(map[string]interface{}{"generator": "oracle", "name": recs[len(recs)/2].(orec).Name, "text": string(inputs[len(recs)/2])})
 }
